@@ -3,8 +3,8 @@ import Hive.Gen.C20_Skel
 /-!
 # C20 — the daemon stops background workers in descending shutdown order
 
-Property theorems only.  Model: `Hive/Model/Daemon.lean` (`app/daemon/daemon.go` after the two repairs
-of the stopped-flag windows); trace predicates: `Hive/Spec/Daemon.lean`.  Every theorem quantifies over
+Property theorems only.  Model: `Hive/Model/Daemon.lean` (`app/daemon/daemon.go` after the repairs of the
+stopped-flag windows and of `Run`: `sys true true`); trace predicates: `Hive/Spec/Daemon.lean`.  Every theorem quantifies over
 **every** thread pool `ts` (any number of `BackgroundWorker`, `Start`, `Run`, `Shutdown`/`ShutdownAndWait`
 callers, worker goroutines and `IsStopped` pollers, in any local state), every worker set and order
 assignment (orders are arbitrary integers: ties, negatives, gaps), workers that return at any time
@@ -16,54 +16,57 @@ open Hive.Conc
 
 /-- **Order.**  Whenever a running worker's context is cancelled (and whenever a worker observes its
 cancellation) every started worker of a higher order has already returned. -/
-theorem C20_order (ts ts' : List Th) (s : St) (hr : Reach (sys true) (init, ts) (s, ts')) :
+theorem C20_order (ts ts' : List Th) (s : St) (hr : Reach (sys true true) (init, ts) (s, ts')) :
     orderOk s.tr = true :=
   (inv_reach hr).2.2.okOrder
 
 /-- **Equal orders are cancelled together.**  The shutdown never waits between the cancellations of two
 running workers of the same order: when it begins to wait for order `p` all running workers cancelled so
 far have order `≥ p`, all cancelled later have order `< p`. -/
-theorem C20_equal_order_together (ts ts' : List Th) (s : St) (hr : Reach (sys true) (init, ts) (s, ts')) :
+theorem C20_equal_order_together (ts ts' : List Th) (s : St) (hr : Reach (sys true true) (init, ts) (s, ts')) :
     togetherOk s.tr = true :=
   (inv_reach hr).2.2.okTogether
 
 /-- **ShutdownAndWait returns after all.**  Whenever a `stopOnce.Do(shutdown)` call returns — the first
 caller or any concurrent one — every worker that was ever started has returned. -/
-theorem C20_wait_returns_after_all (ts ts' : List Th) (s : St) (hr : Reach (sys true) (init, ts) (s, ts')) :
+theorem C20_wait_returns_after_all (ts ts' : List Th) (s : St) (hr : Reach (sys true true) (init, ts) (s, ts')) :
     waitOk s.tr = true :=
   (inv_reach hr).2.2.okWait
 
 /-- **Nothing is added or started after shutdown.**  A `BackgroundWorker` call that begins after a
 `ShutdownAndWait` returned (or after `IsStopped()` was seen true) is never accepted, and no worker is
 started after a `ShutdownAndWait` returned. -/
-theorem C20_no_add_after_shutdown (ts ts' : List Th) (s : St) (hr : Reach (sys true) (init, ts) (s, ts')) :
+theorem C20_no_add_after_shutdown (ts ts' : List Th) (s : St) (hr : Reach (sys true true) (init, ts) (s, ts')) :
     noAddOk s.tr = true :=
   (inv_reach hr).2.2.okNoAdd
 
 /-- **A running name is refused.**  `BackgroundWorker` never accepts a name while a worker registered under
 that name has not returned. -/
-theorem C20_running_name_refused (ts ts' : List Th) (s : St) (hr : Reach (sys true) (init, ts) (s, ts')) :
+theorem C20_running_name_refused (ts ts' : List Th) (s : St) (hr : Reach (sys true true) (init, ts) (s, ts')) :
     refusedOk s.tr = true :=
   (inv_reach hr).2.2.okRefused
 
-/-- The property at full strength: additionally every `Run` call returns only after every started worker has
-returned.  The code does not satisfy this clause (`C20_run_wait_witness`). -/
-def C20_statement : Prop :=
-  ∀ (ts ts' : List Th) (s : St), Reach (sys true) (init, ts) (s, ts') →
-    orderOk s.tr = true ∧ togetherOk s.tr = true ∧ waitOk s.tr = true ∧ runWaitOk s.tr = true ∧
-      noAddOk s.tr = true ∧ refusedOk s.tr = true
-
-/-- **Run, the part that holds.**  `Run` copies the per-order WaitGroups once, right after its `Start`.
-Missing for the full statement: workers accepted *after* that copy are not waited for.  Under the forced
-hypothesis that no worker is accepted after a `Run` copied the WaitGroups (`noLateAdd`), every `Run`
-returns only after every started worker has returned — for every pool of callers that have not begun
-their calls, every worker set and every interleaving. -/
-theorem C20_run_wait_partial (ts ts' : List Th) (s : St) (hinit : ∀ t, t ∈ ts → t.isInit = true)
-    (hr : Reach (sys true) (init, ts) (s, ts')) (hl : noLateAdd s.tr = true) :
+/-- **Run returns after all.**  Whenever a `Run` call returns, every worker that was ever started — also
+one added, finished or re-registered while the daemon was running — has returned.  (`Run` waits under the lock
+until the counter of running workers is zero; the counter equals the number of objects started and not yet
+cleaned up: `InvC`.) -/
+theorem C20_run_returns_after_all (ts ts' : List Th) (s : St) (hr : Reach (sys true true) (init, ts) (s, ts')) :
     runWaitOk s.tr = true :=
-  ((rinv_reach hinit hr).2.2 hl).1
+  (inv2_reach hr).2.2
 
-/-! ## witnesses (concrete schedules, replayed on the real code by `harness/c20`'s corpus) -/
+/-- **The property at full strength**: all six clauses, for every thread pool, worker set, order assignment
+and interleaving. -/
+theorem C20_statement :
+    ∀ (ts ts' : List Th) (s : St), Reach (sys true true) (init, ts) (s, ts') →
+      orderOk s.tr = true ∧ togetherOk s.tr = true ∧ waitOk s.tr = true ∧ runWaitOk s.tr = true ∧
+        noAddOk s.tr = true ∧ refusedOk s.tr = true := by
+  intro ts ts' s hr
+  exact ⟨C20_order ts ts' s hr, C20_equal_order_together ts ts' s hr, C20_wait_returns_after_all ts ts' s hr,
+    C20_run_returns_after_all ts ts' s hr, C20_no_add_after_shutdown ts ts' s hr,
+    C20_running_name_refused ts ts' s hr⟩
+
+/-! ## witnesses about the code before its repairs (concrete schedules; they were replayed on the real code
+of that time by `harness/c20`, see design/C20.md) -/
 
 /-- Thread pool of the `Run` witness: worker 1 (order 0) registered, `Run`, worker 2 of the new lower order
 -1 added while running, `ShutdownAndWait`, and the two worker goroutines. -/
@@ -71,26 +74,30 @@ def runPool : List Th :=
   [.bw 1 1 0 .call, .runner 2 .call, .bw 3 2 (-1) .call, .sd 4 .call, .wk 0, .wk 1]
 
 /-- register 1; Run: Start, copy the WaitGroups `{0}`; register and start 2 (order -1); shutdown: stop flag,
-snapshot, cancel 1; worker 1 returns, `Done`; `Run` passes the WaitGroup of order 0 and returns while
+snapshot, cancel 1; worker 1 returns, `Done`; the old `Run` passes the WaitGroup of order 0 and returns while
 worker 2 has not even been cancelled. -/
 def runSchedule : List (Nat × Nat) :=
   [(0, 0), (0, 0), (1, 0), (1, 0), (1, 0), (2, 0), (2, 0), (3, 0), (3, 0), (3, 0), (3, 0), (3, 0), (3, 0),
    (4, 0), (4, 0), (1, 0), (1, 0)]
 
-/-- **Witness**: a reachable trace on which `Run` returns before a started worker has returned
-(corpus case "Run vs a worker of a new (lower) order", recorded as a known finding). -/
-theorem C20_run_wait_witness :
-    runWaitOk (runSched (sys true) (init, runPool) runSchedule).1.tr = false ∧
-      noLateAdd (runSched (sys true) (init, runPool) runSchedule).1.tr = false := by
+/-- **Witness (old `Run`, `sys true false`)**: `Run` copied the per-order WaitGroups once and returned before
+a worker accepted afterwards had returned. -/
+theorem C20_old_run_wait_witness :
+    runWaitOk (runSched (sys true false) (init, runPool) runSchedule).1.tr = false := by
   decide +kernel
 
-theorem C20_statement_fails_witness : ¬ C20_statement := by
-  intro h
-  have hr := runSched_reach (sys true) (init, runPool) runSchedule
-  have := (h runPool (runSched (sys true) (init, runPool) runSchedule).2
-    (runSched (sys true) (init, runPool) runSchedule).1 hr).2.2.2.1
-  rw [C20_run_wait_witness.1] at this
-  exact Bool.noConfusion this
+/-- The same callers on the repaired code: `Run` is still blocked after that schedule (its last two steps are
+not enabled), and returns only after both workers were cleaned up. -/
+def runScheduleNew : List (Nat × Nat) :=
+  [(0, 0), (0, 0), (1, 0), (1, 0), (2, 0), (2, 0), (3, 0), (3, 0), (3, 0), (3, 0), (3, 0), (3, 0), (3, 0),
+   (4, 0), (4, 0), (4, 0), (3, 0), (3, 0), (5, 0), (5, 0), (5, 0), (1, 0)]
+
+theorem C20_run_repaired_example :
+    (runSched (sys true true) (init, runPool) runSchedule).1.tr.all (fun e => e != .runret 2) = true ∧
+    (runSched (sys true true) (init, runPool) runScheduleNew).1.tr =
+      [.bwcall 1 1 0, .accept 1 1 0, .runcall 2, .start 0 1 0, .bwcall 3 2 (-1), .accept 3 2 1, .start 1 2 (-1),
+       .sdcall 4, .cancel 0, .waitfor 0, .ret 0, .cancel 1, .ret 1, .runret 2] := by
+  decide +kernel
 
 /-- Pool of the witnesses about the code *before* the repairs (`sys false`): worker 1 (order 1), `Start`, a
 `BackgroundWorker` call for worker 2 (order 0) that is parked between its stopped check and the lock,
@@ -113,14 +120,14 @@ def oldScheduleCleared : List (Nat × Nat) :=
 return while a started worker was running, or panicked (both replayed on the unrepaired tree through the
 `verif` hook; see design/C20.md). -/
 theorem C20_old_bw_window_witness :
-    waitOk (runSched (sys false) (init, oldPool) oldScheduleSnapshot).1.tr = false ∧
-      noCrashOk (runSched (sys false) (init, oldPool) oldScheduleCleared).1.tr = false := by
+    waitOk (runSched (sys false false) (init, oldPool) oldScheduleSnapshot).1.tr = false ∧
+      noCrashOk (runSched (sys false false) (init, oldPool) oldScheduleCleared).1.tr = false := by
   decide +kernel
 
 /-- The same two schedules on the repaired code: the late call is refused. -/
 theorem C20_bw_window_repaired_example :
-    failed (runSched (sys true) (init, oldPool) oldScheduleSnapshot).1.tr = [] ∧
-      failed (runSched (sys true) (init, oldPool) oldScheduleCleared).1.tr = [] := by
+    failed (runSched (sys true true) (init, oldPool) oldScheduleSnapshot).1.tr = [] ∧
+      failed (runSched (sys true true) (init, oldPool) oldScheduleCleared).1.tr = [] := by
   decide +kernel
 
 /-! ## non-vacuity -/
@@ -142,29 +149,15 @@ def demoSchedule : List (Nat × Nat) :=
 /-- The hypotheses of the theorems are satisfiable by a non-trivial history: a reachable trace in which two
 equal-order workers are cancelled together before the lower one and both shutdown callers return. -/
 example :
-    (runSched (sys true) (init, demoPool) demoSchedule).1.tr =
+    (runSched (sys true true) (init, demoPool) demoSchedule).1.tr =
       [.bwcall 1 1 5, .accept 1 1 0, .bwcall 2 2 5, .accept 2 2 1, .bwcall 3 3 (-2), .accept 3 3 2,
        .start 0 1 5, .start 1 2 5, .start 2 3 (-2), .sdcall 7, .sdcall 8,
        .cancel 0, .cancel 1, .waitfor 5, .seen 0, .seen 1, .ret 0, .ret 1,
        .cancel 2, .waitfor (-2), .ret 2, .sdret 7, .sdret 8, .bwcall 9 1 0, .refuse 9 1 .stopped] := by
   decide +kernel
 
-example : Reach (sys true) (init, demoPool) (runSched (sys true) (init, demoPool) demoSchedule) :=
+example : Reach (sys true true) (init, demoPool) (runSched (sys true true) (init, demoPool) demoSchedule) :=
   runSched_reach _ _ _
-
-/-- `C20_run_wait_partial`: a `Run` without late additions that does return. -/
-def runPool2 : List Th := [.bw 1 1 0 .call, .runner 2 .call, .sd 4 .call, .wk 0]
-
-example :
-    (∀ t, t ∈ runPool2 → t.isInit = true) ∧
-    noLateAdd (runSched (sys true) (init, runPool2)
-      [(0, 0), (0, 0), (1, 0), (1, 0), (1, 0), (2, 0), (2, 0), (2, 0), (2, 0), (2, 0), (2, 0), (2, 0),
-       (3, 0), (3, 0), (1, 0), (1, 0)]).1.tr = true ∧
-    (Ev.runret 2) ∈ (runSched (sys true) (init, runPool2)
-      [(0, 0), (0, 0), (1, 0), (1, 0), (1, 0), (2, 0), (2, 0), (2, 0), (2, 0), (2, 0), (2, 0), (2, 0),
-       (3, 0), (3, 0), (1, 0), (1, 0)]).1.tr := by
-  decide +kernel
-
 
 /-! ## Regenerated tie: the synchronisation skeletons the protocol model was written against
 
@@ -173,7 +166,7 @@ The equalities below are the structure `Hive/Model/Daemon.lean` mirrors: the unl
 followed by the re-check under `d.lock`; `wg.Add` / flag / `go` / `wg.Done` / clean-up / flag of a worker
 goroutine; `stopped.Store` under the lock, `IsRunning`, `stopWorkers`, `running.Store`, `clear` in
 `shutdown`; the flag load, the conditional `Wait`, `ctxCancel` and the final `Wait` of `stopWorkers`; `Run` =
-`Start`, copy, `Wait`s.  A change of that structure breaks these obligations. -/
+`Start`, then under the lock a loop around `workersDone.Wait`; `cleanupWorker` broadcasts under the lock.  A change of that structure breaks these obligations. -/
 open Hive.Gen.C20Skel
 
 theorem C20_skeleton_BackgroundWorker : skel_OrderedDaemon_BackgroundWorker = [
@@ -194,12 +187,7 @@ theorem C20_skeleton_Start : skel_OrderedDaemon_Start = [
   "call d.running.Store", "for{", "helper runBackgroundWorker", "}for", "}if"] := by decide
 
 theorem C20_skeleton_Run : skel_OrderedDaemon_Run = [
-  "helper Start", "helper waitGroupsForAllShutdownOrders", "for{", "if{", "continue", "}if", 
-  "call wg.Wait", "}for"] := by decide
-
-theorem C20_skeleton_waitGroupsForAllShutdownOrders : skel_OrderedDaemon_waitGroupsForAllShutdownOrders = [
-  "rlock d.lock", "defer runlock d.lock", "if{", "return", "}if", "for{", 
-  "}for", "return"] := by decide
+  "helper Start", "lock d.lock", "defer unlock d.lock", "for{", "call d.workersDone.Wait", "}for"] := by decide
 
 theorem C20_skeleton_shutdown : skel_OrderedDaemon_shutdown = [
   "if{", "}if", "lock d.lock", "call d.stopped.Store", "unlock d.lock", "call d.stoppedCtxCancel", 
@@ -215,7 +203,8 @@ theorem C20_skeleton_getWorkersAndShutdownOrder : skel_OrderedDaemon_getWorkersA
   "rlock d.lock", "defer runlock d.lock", "for{", "}for", "return"] := by decide
 
 theorem C20_skeleton_cleanupWorker : skel_OrderedDaemon_cleanupWorker = [
-  "lock d.lock", "defer unlock d.lock", "call d.IsStopped", "if{", "return", "}if"] := by decide
+  "lock d.lock", "defer unlock d.lock", "call d.workersDone.Broadcast", "call d.IsStopped", "if{", "return", 
+  "}if"] := by decide
 
 theorem C20_skeleton_clear : skel_OrderedDaemon_clear = [
   "lock d.lock", "defer unlock d.lock"] := by decide
